@@ -367,7 +367,8 @@ impl FileDesc {
                 .config
                 .oti
                 .as_ref()
-                .map(|oti| oti.get_attributes()),
+                // the effective OTI: the number of source blocks (Z) is only known there
+                .map(|_| self.oti.get_attributes()),
         };
 
         let optel_propagator = self
